@@ -64,6 +64,12 @@ def generate(tier, rng):
                 if via == "scalar" and dd_:
                     continue
                 cases.append(dict(stream="validators", coq=False, kind="shape", dims=dd_, shape=list(shp), via=via))
+    # right-hand sides that cannot be converted (a Python list or a text array whose LAST element is not a number): the call
+    # raises, and the target stays exactly as it was — also not partly overwritten
+    for dd_ in ([base["r"]], [base["t"], base["r"]]):
+        for rhs in ("list", "textarray", "objectlist"):
+            for via in ("set_values", "assign", "keyed"):
+                cases.append(dict(stream="validators", coq=False, kind="unconvertible", dims=dd_, rhs=rhs, via=via))
     return cases
 
 
@@ -115,6 +121,40 @@ def run_impl(case):
         except Exception as e:  # noqa
             return dict(kind="shape", accepted=False, exc=type(e).__name__, msg=str(e)[:100], want=list(dims.shape),
                         target_intact=isinstance(target.values, np.ndarray) and list(target.values.shape) == list(dims.shape) and bool(np.all(target.values == 3.0)))
+    if case.get("kind") == "unconvertible":
+        dims = _ds(case["dims"])
+        target = fd.FlodymArray(dims=dims, values=np.arange(int(np.prod(dims.shape)), dtype=float).reshape(dims.shape) + 3)
+        before = target.values.copy()
+        if case["via"] == "keyed":
+            key = {case["dims"][0]["letter"]: case["dims"][0]["items"][0]}
+            shape = dims.shape[1:]
+        else:
+            key, shape = None, dims.shape
+        n = int(np.prod(shape)) if shape else 1
+        cells = [str(10 + i) for i in range(n - 1)] + ["n/a"]
+        good = [float(10 + i) for i in range(n - 1)]
+        if case["rhs"] == "list":
+            rhs = np.array(good + [0.0]).reshape(shape).tolist() if shape else 0.0
+            # put the unconvertible cell last
+            flat = good + ["n/a"]
+            rhs = np.array(flat, dtype=object).reshape(shape).tolist() if shape else "n/a"
+        elif case["rhs"] == "objectlist":
+            rhs = np.array(good + [object()], dtype=object).reshape(shape).tolist() if shape else object()
+        else:
+            rhs = np.array(cells).reshape(shape)
+        try:
+            if case["via"] == "set_values":
+                target.set_values(rhs)
+            elif case["via"] == "assign":
+                target[...] = rhs
+            else:
+                target[key] = rhs
+            return dict(kind="unconvertible", raised=False, numeric=bool(isinstance(target.values, np.ndarray) and target.values.dtype.kind in "biufc"),
+                        shape_ok=list(getattr(target.values, "shape", [-1])) == list(dims.shape))
+        except Exception as e:  # noqa
+            v = target.values
+            intact = isinstance(v, np.ndarray) and v.shape == before.shape and v.dtype == before.dtype and bool(np.array_equal(v, before))
+            return dict(kind="unconvertible", raised=True, exc=type(e).__name__, intact=intact)
     if case.get("kind") == "dtype":
         dims = _ds(case["dims"])
         vals = (np.arange(int(np.prod(dims.shape)) if dims.shape else 1) + 1).reshape(dims.shape).astype(case["dtype"])
@@ -167,6 +207,13 @@ def oracle(case, ob):
         if not ob["target_intact"]:
             return f"{tag}: refused, but the target array was changed"
         return None
+    if case.get("kind") == "unconvertible":
+        tag = f"{case['via']} with a {case['rhs']} whose last element is not a number, dims {[d['letter'] for d in case['dims']]}"
+        if ob["raised"] and not ob["intact"]:
+            return f"{tag}: the call raised {ob['exc']} but the target was changed (partly overwritten)"
+        if not ob["raised"] and not ob["shape_ok"]:
+            return f"{tag}: accepted and the values no longer have the shape of the dimensions"
+        return None          # (whether such a right-hand side is accepted at all is not fixed by the property)
     if case.get("kind") == "stock_ctor":
         must_reject = case["variant"] != "same"
         if must_reject and ob["accepted"]:
